@@ -161,11 +161,9 @@ def _eval_one(parsed, impl, flags, s, xpath, ambiguous):
     for name, opts in _MODELS:
         if ('py_sw' in opts and not sw) or ('py_fold' in opts and 'i' not in flags):
             continue
-        try:
-            if _compare(_ref_result(parsed, flags, s, xpath, **opts), m, xpath, ambiguous) is None:
-                return r + (name,)
-        except R.Undecided:
-            pass
+        # (an Undecided raised by a model propagates: the discrepancy cannot be attributed, no verdict)
+        if _compare(_ref_result(parsed, flags, s, xpath, **opts), m, xpath, ambiguous) is None:
+            return r + (name,)
     return r + (None,)
 
 
@@ -290,10 +288,16 @@ def _bucket(check, ast, flags, xpath, ver, s, kind):
     feats = G.features(ast)
     sig = '+'.join(feats) or 'empty'
     mode = ('xpath' if xpath else 'xsd') + ('' if ver == '1.0' else '-1.1')
+    cls = [f for f in feats if f.startswith('cls(')]
+    inner = set(','.join(cls).replace('(', ',').replace(')', ',').split(','))
+    # input classes of recorded root causes (decided on the minimised pattern, so the feature is necessary)
+    if inner & {'r:esc-start', 'r:esc-end-nrt'}:
+        return f'C12/{check}/class-range-endpoint-written-as-escape/{_kind_class(kind)}'
+    if 'r:bs-end+esc' in inner:
+        return f'C12/{check}/class-range-ending-in-backslash-followed-by-escape/{_kind_class(kind)}'
+    if 'x' in flags and 'lit:#' in feats:
+        return f'C12/{check}/xflag-hash-character/{_kind_class(kind)}'
     if 'i' in flags and _kind_class(kind) == 'verdict':
-        # input classes of two recorded root causes of case-insensitive classes
-        cls = [f for f in feats if f.startswith('cls(')]
-        inner = set(','.join(cls).replace('(', ',').replace(')', ',').split(','))
         if inner & {'sw', 'SW', 'd', 'D', 'ic', 'IC', 'cat', 'CAT', 'blk', 'BLK', 'blk-hy', 'BLK-hy'}:
             return f'C12/{check}/icase-class-with-escape/{kind}'
         if any('sub(' in f for f in cls):
@@ -392,13 +396,401 @@ def judge_cls(case, rec=None):
     return _judge_lang('cls', full, rec)
 
 
+# --------------------------------------------------------------------------
+# invalid patterns and flags
+# --------------------------------------------------------------------------
+_FN_EXPR = {'matches': 'matches($s, $p, $f)', 'tokenize': 'tokenize($s, $p, $f)',
+            'replace': 'replace($s, $p, $r, $f)', 'analyze-string': 'analyze-string($s, $p, $f)'}
+_FN_EXPR2 = {'matches': 'matches($s, $p)', 'tokenize': 'tokenize($s, $p)',
+             'replace': 'replace($s, $p, $r)', 'analyze-string': 'analyze-string($s, $p)'}
+_tokens: dict = {}
+
+
+def _token(xp, ver, name, short=False):
+    key = (xp, ver, name, short)
+    t = _tokens.get(key)
+    if t is None:
+        if xp == '2.0':
+            from elementpath import XPath2Parser as P
+        else:
+            from elementpath.xpath31 import XPath31Parser as P
+        t = _tokens[key] = P(xsd_version=ver).parse((_FN_EXPR2 if short else _FN_EXPR)[name])
+    return t
+
+
+def _call(xp, ver, name, s, p, f, r='$0', short=False):
+    """('ok', value) | ('err', code) | ('escape', bucket-suffix, repr)"""
+    from elementpath import XPathContext, ElementPathError
+    try:
+        tok = _token(xp, ver, name, short)
+        val = tok.evaluate(XPathContext(item='', variables={'s': s, 'p': p, 'f': f, 'r': r}))
+    except ElementPathError as e:
+        code = (e.code or '').split(':')[-1]
+        return ('err', code)
+    except Exception as e:
+        return ('escape', escape_bucket(PROPERTY, e).split('/', 1)[1], repr(e))
+    if name == 'analyze-string':
+        ns = '{http://www.w3.org/2005/xpath-functions}'
+        parts = []
+        for ch in val.elem:
+            parts.append([ch.tag == ns + 'match', ''.join(ch.itertext())])
+            if ch.tag not in (ns + 'match', ns + 'non-match') or (ch.tail or ''):
+                return ('ok', [['bad-structure', ch.tag]])
+        if (val.elem.text or '') != '':
+            return ('ok', [['bad-structure', 'text']])
+        return ('ok', parts)
+    if name == 'tokenize':
+        return ('ok', list(val) if isinstance(val, list) else [val])
+    return ('ok', val)
+
+
+def judge_invalid(case, rec: Recorder | None = None) -> list[Disc]:
+    from elementpath.regex import translate_pattern, RegexError
+    discs: list[Disc] = []
+    rc, text = case['recipe'], case['text']
+    if rc in ('bad-flag', 'flag-q-xpath20'):
+        if rc == 'bad-flag':
+            discs += _fn_error_discs('C12/invalid/bad-flag', 'FORX0001', _FN_EXPR, '3.1', '1.0', case['subject'], text,
+                                     case['flags'], canon(case))
+        else:
+            discs += _fn_error_discs('C12/invalid/flag-q-xpath20', 'FORX0001', ('matches', 'tokenize', 'replace'), '2.0',
+                                     '1.0', case['subject'], text, case['flags'], canon(case))
+        if rec is not None:
+            rec.case([rc, text, case['flags'], case['subject']], nontrivial=True, classes=['invalid:flag'],
+                     sample={'check': 'invalid', **case})
+        return discs
+    xpath, ver = case['xpath'], case['ver']
+    mode = 'xpath' if xpath else 'xsd'
+    try:
+        parsed = R.parse(text, xpath=xpath, xsd_version=ver)
+    except R.RefRegexError:
+        parsed = None
+    if rec is not None:
+        rec.cls('invalid:any')
+    if parsed is not None:
+        # the recipe did not produce an invalid pattern (e.g. the suffix completed a quantity): no verdict
+        if rec is not None:
+            rec.cls('invalid:reference-accepts')
+        return discs
+    if rec is not None:
+        rec.case([text, xpath, ver], nontrivial=True, classes=['invalid:checked', 'invalid:' + rc],
+                 sample={'check': 'invalid', **case})
+    kw = {} if xpath else {'back_references': False, 'lazy_quantifiers': False, 'anchors': False}
+    try:
+        py = translate_pattern(text, 0, ver, **kw)
+    except RegexError:
+        py = None
+    except Exception as e:
+        discs.append(Disc(f'C12/invalid/{rc}/{mode}/{escape_bucket(PROPERTY, e).split("/", 1)[1]}', 'RegexError', repr(e), text))
+        py = None
+    if py is not None:
+        try:
+            re.compile(py)
+            out = 'py-accepts'
+        except (re.error, OverflowError, RecursionError):
+            out = 'py-rejects'
+        discs.append(Disc(f'C12/invalid/{rc}/{mode}/translate-accepts:{out}', 'RegexError', py[:120], f'pattern={text!r} xsd_version={ver}'))
+    if xpath:
+        discs += _fn_error_discs(f'C12/invalid/{rc}', 'FORX0002', _FN_EXPR, '3.1', ver, 'a', text, '',
+                                 f'pattern={text!r} xsd_version={ver}')
+    return discs
+
+
+def _fn_error_discs(prefix, code, names, xp, ver, s, p, f, detail):
+    """every function in `names` must raise `code`; one Disc per distinct wrong outcome (functions listed)"""
+    outcomes: dict = {}
+    for name in names:
+        r = _call(xp, ver, name, s, p, f)
+        if r == ('err', code):
+            continue
+        o = r[1] if r[0] == 'escape' else 'no-error' if r[0] == 'ok' else 'wrong-code:' + r[1]
+        outcomes.setdefault(o, []).append(name)
+    return [Disc(f'{prefix}/fn:{"all" if len(fs) == len(names) else ",".join(fs)}/{o}', code, o, detail)
+            for o, fs in sorted(outcomes.items())]
+
+
+@st.composite
+def _invalid_strategy(draw):
+    k = draw(st.integers(0, 19))
+    if k == 0:
+        return draw(G.badflag_case())
+    if k == 1:
+        return {'recipe': 'flag-q-xpath20', 'flags': draw(st.sampled_from(['q', 'qi', 'iq'])),
+                'text': draw(st.sampled_from(['a', 'a.b', '('])), 'subject': draw(st.sampled_from(['a', 'a.b', '']))}
+    return draw(G.invalid_case())
+
+
+# --------------------------------------------------------------------------
+# fn: matches / tokenize / replace / analyze-string
+# --------------------------------------------------------------------------
+def _tokens_of(parts, s):
+    """fn:tokenize result implied by a match/non-match partition (F&O 5.6.4)"""
+    if s == '':
+        return []
+    out, cur = [], ''
+    for is_match, txt in parts:
+        if is_match:
+            out.append(cur)
+            cur = ''
+        else:
+            cur += txt
+    out.append(cur)
+    return out
+
+
+def _ref_partition(parsed, flags, s, **model):
+    variants = [True, False] if ('m' in flags and R._has(parsed.node, 'eol')) else [True]
+    res = [[[m, s[a:b]] for m, a, b in R.Matcher(parsed, flags, st_, **model).partition(s)] for st_ in variants]
+    if len(res) == 2 and res[0] != res[1]:
+        raise R.Undecided("multi-line '$'")
+    return res[0]
+
+
+def _ref_nullable(parsed, flags):
+    variants = [True, False] if ('m' in flags and R._has(parsed.node, 'eol')) else [True]
+    res = [R.Matcher(parsed, flags, st_).bt_search('') is not None for st_ in variants]
+    if len(set(res)) > 1:
+        raise R.Undecided("multi-line '$'")
+    return res[0]
+
+
+def _fn_eval(parsed, impl, ambiguous, text, flags, ver, s, short):
+    """list of (kind, expected, observed) for one subject; raises Undecided"""
+    out = []
+    nullable = _ref_nullable(parsed, flags)
+    res = {}
+    for name in _FN_EXPR:
+        res[name] = _call('3.1', ver, name, s, text, flags, '$0', short)
+    res['replace[]'] = _call('3.1', ver, 'replace', s, text, flags, '[$0]', short)
+    for name, r in res.items():
+        if r[0] == 'escape':
+            out.append((f'{name}/{r[1]}', 'a value or an XPath error', r[2]))
+    # lang-level verdict first: what the translated pattern itself says about this subject
+    lang = _eval_one(parsed, impl, flags if 'q' not in flags else flags, s, True, ambiguous) if impl is not None else None
+    lang_model = lang[3] if lang else None
+    if nullable:
+        for name in ('tokenize', 'replace', 'analyze-string'):
+            r = res[name]
+            if r[0] == 'ok':
+                out.append((f'{name}/missing-FORX0003', 'FORX0003', r[1]))
+            elif r[0] == 'err' and r[1] != 'FORX0003':
+                out.append((f'{name}/wrong-code:{r[1]}', 'FORX0003', r[1]))
+        r = res['matches']
+        if r[0] == 'err':
+            out.append((f'matches/unexpected-error:{r[1]}', 'a boolean', r[1]))
+        return out, lang_model
+    for name, r in res.items():
+        if r[0] == 'err':
+            out.append((f'{name}/unexpected-error:{r[1]}', 'a value', r[1]))
+    if any(r[0] != 'ok' for r in res.values()):
+        return out, lang_model
+    M, T, RP, RB, A = res['matches'][1], res['tokenize'][1], res['replace'][1], res['replace[]'][1], res['analyze-string'][1]
+    # mutual consistency
+    if A and A[0][0] == 'bad-structure':
+        out.append(('analyze-string/structure', 'match / non-match children only', A[0][1]))
+        return out, lang_model
+    if ''.join(t for _, t in A) != s:
+        out.append(('analyze-string/concat', s, ''.join(t for _, t in A)))
+    if any(t == '' for _, t in A):
+        out.append(('analyze-string/empty-part', 'non-empty parts', A))
+    if M != any(m for m, _ in A):
+        out.append(('matches-vs-analyze-string', any(m for m, _ in A), M))
+    if T != _tokens_of(A, s):
+        out.append(('tokenize-vs-analyze-string', _tokens_of(A, s), T))
+    qf = 'q' in flags        # F&O 3.1 fn:replace: with flag q the replacement string is used as is
+    if not qf and RP != s:
+        out.append(('replace-$0-identity', s, RP))
+    want_rb = ''.join(('[$0]' if qf else '[' + t + ']') if m else t for m, t in A)
+    if RB != want_rb:
+        out.append(('replace-vs-analyze-string', want_rb, RB))
+    # against the reference (skipped when the translated pattern itself already disagrees on this subject)
+    if lang is None:
+        want = _ref_result(parsed, flags, s, True)[1] is not None
+        if M != want:
+            out.append(('matches-vs-reference', want, M))
+        if not ambiguous:
+            wp = _ref_partition(parsed, flags, s)
+            if A != wp:
+                model = None
+                for name, opts in _MODELS:
+                    try:
+                        if _ref_partition(parsed, flags, s, **opts) == A:
+                            model = name
+                            break
+                    except R.Undecided:
+                        pass
+                if model:
+                    lang_model = model
+                else:
+                    out.append(('analyze-string-vs-reference', wp, A))
+    return out, lang_model
+
+
+def judge_fn(case, rec: Recorder | None = None) -> list[Disc]:
+    ast, flags, ver, short = case['ast'], case['flags'], case['ver'], bool(case.get('short')) and case['flags'] == ''
+    discs: list[Disc] = []
+    q = 'q' in flags
+    xflag = 'x' in flags and not q
+    if rec is not None:
+        rec.cls('pat:any')
+
+    def prepare(a, f, v):
+        try:
+            text = G.render(a, True, 'x' in f and 'q' not in f)
+            parsed = R.parse(text, xpath=True, xsd_version=v, flags=f)
+            if 'q' not in f:
+                node, ng = G.to_ref(a, True, 'x' in f)
+                if parsed.doubts or node != parsed.node or ng != parsed.ngroups:
+                    return None
+        except (R.RefRegexError, ValueError, IndexError, TypeError):
+            return None
+        impl = None
+        if 'q' not in f:
+            impl = _Impl(text, f, True, v)
+            if impl.status != 'ok':
+                return None        # valid-rejected etc. belong to the xpath/xsd checks
+        return parsed, impl, R.preference_ambiguous(parsed.node), text
+
+    cache = {}
+
+    def evaluate(a, f, v, s):
+        key = canon([a, f, v])
+        if key not in cache:
+            cache[key] = prepare(a, f, v)
+        p = cache[key]
+        if p is None:
+            return None
+        try:
+            return _fn_eval(p[0], p[1], p[2], p[3], f, v, s, short and f == '')
+        except R.Undecided:
+            return None
+
+    p0 = prepare(ast, flags, ver)
+    cache[canon([ast, flags, ver])] = p0
+    if p0 is None:
+        if rec is not None:
+            rec.cls('pat:skipped-doubt-or-malformed-or-rejected')
+        return discs
+    if rec is not None:
+        rec.cls('pat:checked')
+        for f in flags:
+            rec.cls('flag:' + f)
+    text = p0[3]
+    nontriv = G.nontrivial(ast, flags)
+    seen = set()
+    nmin = 0
+    kinds_done = set()
+    for s in case['subjects']:
+        r = evaluate(ast, flags, ver, s)
+        classes = ['fn:subject']
+        if r is None:
+            classes.append('fn:undecided')
+        else:
+            try:
+                classes.append('fn:pattern-matches-empty' if _ref_nullable(p0[0], flags) else 'fn:partitioned')
+            except R.Undecided:
+                pass
+            if r[1]:
+                classes.append('fn:lang-level-known-model')
+        if rec is not None:
+            rec.case(['fn', text, flags, ver, s], nontrivial=nontriv, classes=classes,
+                     sample={'check': 'fn', 'pattern': text, 'flags': flags, 'xsd_version': ver, 'subject': s})
+        if not r or not r[0]:
+            continue
+        for kind, exp, obs in r[0]:
+            if nmin >= 3 or kind in kinds_done:
+                continue
+            nmin += 1
+            kinds_done.add(kind)
+
+            def fails(a, f, v, subj, kc=kind):
+                rr = evaluate(a, f, v, subj)
+                return bool(rr and any(k == kc for k, _, _ in rr[0]))
+            mast, mflags, ms = _minimise_fn(fails, ast, flags, ver, s)
+            feats = G.features(mast)
+            pcls = 'flag-q' if 'q' in mflags else 'capturing-group' if 'grp' in feats else 'any-pattern'
+            b = f'C12/fn/{kind}/{_subj_sig(ms)}/{pcls}'
+            if b not in seen:
+                seen.add(b)
+                discs.append(Disc(b, exp, obs, f'pattern={text!r} flags={flags!r} subject={s!r} minimal subject {ms!r} '
+                                  f'flags={mflags!r}'))
+    return discs
+
+
+def _minimise_fn(fails, ast, flags, ver, s):
+    """function-level discrepancies are classified by the subject, the flags and whether a capturing group is
+    needed: shortest failing substring, fewest flags, groups turned into (?:..) where the failure persists"""
+    done = False
+    for ln in range(len(s)):
+        for i in range(len(s) - ln + 1):
+            if fails(ast, flags, ver, s[i:i + ln]):
+                s, done = s[i:i + ln], True
+                break
+        if done:
+            break
+    for f in flags:
+        f2 = flags.replace(f, '')
+        if fails(ast, f2, ver, s):
+            flags = f2
+
+    def ungroup(n):
+        """yield variants with one capturing group made non-capturing"""
+        t = n[0]
+        if t == 'grp':
+            yield ['ncg', n[1]]
+            for y in ungroup(n[1]):
+                yield ['grp', y]
+        elif t in ('seq', 'alt'):
+            for k, x in enumerate(n[1]):
+                for y in ungroup(x):
+                    yield [t, n[1][:k] + [y] + n[1][k + 1:]]
+        elif t == 'ncg':
+            for y in ungroup(n[1]):
+                yield ['ncg', y]
+        elif t == 'rep':
+            for y in ungroup(n[1]):
+                yield ['rep', y] + n[2:]
+    changed = True
+    while changed:
+        changed = False
+        for cand in ungroup(ast):
+            if fails(cand, flags, ver, s):
+                ast, changed = cand, True
+                break
+    return ast, flags, s
+
+
+def _subj_sig(s):
+    """coarse class of the minimal subject for function-level buckets (one class, by priority)"""
+    if any(c in '<&' for c in s):
+        return 's:xml-special'
+    if '\r' in s:
+        return 's:cr'
+    if '\\' in s or '$' in s:
+        return 's:backslash-or-dollar'
+    return 's:plain' if s else 's:empty'
+
+
+_FN_FLAGS = ['', '', '', 's', 'm', 'i', 'x', 'sm', 'ix', 'q', 'qi', 'qx', 'smix', 'mi']
+
+
+@st.composite
+def _fn_strategy(draw):
+    case = draw(G.pattern_case(True, nsubj=5, xml_only=True, flag_sets=_FN_FLAGS, max_atoms=7,
+                               extra_chars=['<', '&', '\\', '$', 'a', ' ']))
+    case['short'] = draw(st.booleans())
+    return case
+
+
 _XPATH_FLAGS = [f for f in G.FLAG_SETS if 'q' not in f]
 _STRATS = {
     'xsd': G.pattern_case(False),
     'xpath': G.pattern_case(True, flag_sets=_XPATH_FLAGS),
     'cls': G.class_case(),
+    'invalid': _invalid_strategy(),
+    'fn': _fn_strategy(),
 }
-_JUDGES = {'xsd': judge_xsd, 'xpath': judge_xpath, 'cls': judge_cls}
+_JUDGES = {'xsd': judge_xsd, 'xpath': judge_xpath, 'cls': judge_cls, 'invalid': judge_invalid, 'fn': judge_fn}
 
 
 # --------------------------------------------------------------------------
@@ -418,7 +810,8 @@ def selftest():
 
 def jobs(tier, seed):
     q = tier == 'quick'
-    plan = {'xsd': (5, 900 if q else 12000), 'xpath': (7, 900 if q else 12000), 'cls': (3, 500 if q else 6000)}
+    plan = {'xsd': (4, 500 if q else 8000), 'xpath': (5, 600 if q else 9000), 'cls': (2, 300 if q else 4000),
+            'invalid': (2, 1200 if q else 15000), 'fn': (3, 150 if q else 2500)}
     out = []
     for chk, (shards, n) in plan.items():
         for i in range(shards):
